@@ -1,9 +1,10 @@
 (* Layer1.v — equational ("symbolic execution") specifications of the link-manipulating
    primitives: under in-range preconditions each of them returns normally and its effect on the
    arena is [amap F], a slot-wise map of per-field updates.  Release semantics (dbg = false). *)
-From IT Require Import NodeOps.
+From IT Require Import NodeOps Forest.
 Require Import Lia.
 Open Scope mon_scope.
+Local Open Scope nat_scope.
 
 (* ---------- slot-wise maps ---------- *)
 Fixpoint mapi_from {A B} (k : nat) (F : nat -> A -> B) (l : list A) : list B :=
@@ -190,3 +191,437 @@ Ltac mstep :=
                            rewrite ?inr_amap; eassumption)
     | progress cbn [when_dbg dassert dtriangle ret] ].
 
+
+(* ---------- identifiers ---------- *)
+Lemma nid_eqb_eq : forall x y, nid_eqb x y = true <-> x = y.
+Proof.
+  intros [i g] [j h]; unfold nid_eqb; cbn. rewrite andb_true_iff, Nat.eqb_eq, Z.eqb_eq.
+  split; [intros [-> ->]; reflexivity | intros E; inversion E; auto].
+Qed.
+Lemma nid_eqb_refl : forall x, nid_eqb x x = true.
+Proof. intros; now apply nid_eqb_eq. Qed.
+Lemma nid_eqb_neq : forall x y, x <> y -> nid_eqb x y = false.
+Proof. intros x y H. destruct (nid_eqb x y) eqn:E; auto. apply nid_eqb_eq in E; contradiction. Qed.
+Lemma nid_eqb_false : forall x y, nid_eqb x y = false <-> x <> y.
+Proof.
+  intros; split; [intros E H; subst; rewrite nid_eqb_refl in E; discriminate | apply nid_eqb_neq].
+Qed.
+Lemma nid_eqb_sym : forall x y, nid_eqb x y = nid_eqb y x.
+Proof. intros. unfold nid_eqb. now rewrite Nat.eqb_sym, Z.eqb_sym. Qed.
+Lemma nid_eq_dec : forall x y : nid, {x = y} + {x <> y}.
+Proof. intros. destruct (nid_eqb x y) eqn:E; [left; now apply nid_eqb_eq | right; now apply nid_eqb_false]. Qed.
+Lemma onid_eqb_eq : forall x y, onid_eqb x y = true <-> x = y.
+Proof.
+  intros [x|] [y|]; cbn; try (split; congruence).
+  rewrite nid_eqb_eq. split; congruence.
+Qed.
+Lemma onid_eqb_refl : forall x, onid_eqb x x = true.
+Proof. intros; now apply onid_eqb_eq. Qed.
+Lemma onid_eqb_false : forall x y, onid_eqb x y = false <-> x <> y.
+Proof.
+  intros. destruct (onid_eqb x y) eqn:E.
+  - apply onid_eqb_eq in E. split; [discriminate | contradiction].
+  - split; auto. intros _ H. apply onid_eqb_eq in H. congruence.
+Qed.
+Lemma onid_eqb_sym : forall x y, onid_eqb x y = onid_eqb y x.
+Proof. intros [x|] [y|]; cbn; auto using nid_eqb_sym. Qed.
+
+(* ---------- the monad, one step at a time ---------- *)
+Lemma bind_assoc : forall A B C (m : M A) (k : A -> M B) (k' : B -> M C) a,
+  bind (bind m k) k' a = bind m (fun x => bind (k x) k') a.
+Proof. intros. unfold bind. destruct (m a) as [a' [x|c|]]; reflexivity. Qed.
+Lemma bind_ret : forall A B (x : A) (k : A -> M B) a, bind (ret x) k a = k x a.
+Proof. reflexivity. Qed.
+Lemma bind_rdi : forall B a x (k : node -> M B), inr a x -> bind (rdi x) k a = k (nd a x) a.
+Proof. intros. erewrite bind_ok; [reflexivity | now apply rdi_ok]. Qed.
+Lemma bind_updi : forall B a x f v (k : unit -> M B), inr a x ->
+  bind (updi x (setf f v)) k a = k tt (amap (fset x f v) a).
+Proof. intros. erewrite bind_ok; [reflexivity | now apply updi_ok]. Qed.
+
+Lemma updi2_ok : forall a x f v g w, inr a x ->
+  updi x (fun n => setf g w (setf f v n)) a = (amap (fset x g w ∘∘ fset x f v) a, Ok tt).
+Proof.
+  intros. unfold updi. erewrite upd_ok by (apply at_nd; eassumption). f_equal.
+  apply amap_ext. intros j n _. unfold comp, fset. destruct (Nat.eqb j (idx x)); reflexivity.
+Qed.
+Lemma bind_updi2 : forall B a x f v g w (k : unit -> M B), inr a x ->
+  bind (updi x (fun n => setf g w (setf f v n))) k a = k tt (amap (fset x g w ∘∘ fset x f v) a).
+Proof. intros. erewrite bind_ok; [reflexivity | now apply updi2_ok]. Qed.
+
+Ltac inr_tac := rewrite ?inr_amap; first [assumption | eassumption].
+Ltac mstep1 :=
+  first
+    [ rewrite bind_assoc
+    | rewrite bind_ret
+    | rewrite bind_rdi by inr_tac
+    | rewrite bind_updi by inr_tac
+    | rewrite bind_updi2 by inr_tac ];
+  cbv beta.
+Ltac msteps := cbn [when_dbg dassert dtriangle expect]; repeat (mstep1; cbn [when_dbg dassert dtriangle expect]).
+
+(* field lookups through a map that leaves the field alone (no range condition needed) *)
+Lemma nd_out : forall a x, ~ inr a x -> nd a x = blank.
+Proof. intros. unfold nd. apply nth_overflow. unfold inr in H. lia. Qed.
+Lemma inr_dec : forall a x, inr a x \/ ~ inr a x.
+Proof. intros. unfold inr. lia. Qed.
+Lemma getf_nd_amap_keep : forall F g a x,
+  (forall j n, getf g (F j n) = getf g n) -> getf g (nd (amap F a) x) = getf g (nd a x).
+Proof.
+  intros. destruct (inr_dec a x) as [I|I].
+  - rewrite nd_amap by auto. apply H.
+  - rewrite !nd_out; auto. now rewrite inr_amap.
+Qed.
+Lemma getf_nd_amap : forall F g a x, inr a x ->
+  getf g (nd (amap F a) x) = getf g (F (idx x) (nd a x)).
+Proof. intros. now rewrite nd_amap. Qed.
+
+Lemma next_nd_keep : forall F a x, (forall j n, next (F j n) = next n) -> next (nd (amap F a) x) = next (nd a x).
+Proof. intros F a x. exact (getf_nd_amap_keep F Fnext a x). Qed.
+Lemma prev_nd_keep : forall F a x, (forall j n, prev (F j n) = prev n) -> prev (nd (amap F a) x) = prev (nd a x).
+Proof. intros F a x. exact (getf_nd_amap_keep F Fprev a x). Qed.
+Lemma parent_nd_keep : forall F a x, (forall j n, parent (F j n) = parent n) -> parent (nd (amap F a) x) = parent (nd a x).
+Proof. intros F a x. exact (getf_nd_amap_keep F Fparent a x). Qed.
+Lemma first_nd_keep : forall F a x, (forall j n, first (F j n) = first n) -> first (nd (amap F a) x) = first (nd a x).
+Proof. intros F a x. exact (getf_nd_amap_keep F Ffirst a x). Qed.
+Lemma last_nd_keep : forall F a x, (forall j n, last (F j n) = last n) -> last (nd (amap F a) x) = last (nd a x).
+Proof. intros F a x. exact (getf_nd_amap_keep F Flast a x). Qed.
+
+Definition oat (o : option nid) (j : nat) : bool :=
+  match o with Some x => Nat.eqb j (idx x) | None => false end.
+Lemma getf_ofset : forall o f v g j n,
+  getf g (ofset o f v j n) = if oat o j && fld_eqb f g then v else getf g n.
+Proof. intros [x|] f v g j n; cbn; [apply getf_fset | reflexivity]. Qed.
+Lemma getf_comp : forall G F g j n, getf g ((G ∘∘ F) j n) = getf g (G j (F j n)).
+Proof. reflexivity. Qed.
+
+Lemma getf_cnF : forall a par pv nx g j n,
+  getf g (cnF a par pv nx j n) =
+    if oat par j && fld_eqb Flast g then cn_last a par pv nx
+    else if oat par j && fld_eqb Ffirst g then cn_first a par pv nx
+    else if oat nx j && fld_eqb Fprev g then pv
+    else if oat pv j && fld_eqb Fnext g then nx
+    else getf g n.
+Proof. intros. unfold cnF, comp. now rewrite !getf_ofset. Qed.
+
+(* ---------- connect_neighbors ---------- *)
+Lemma amap_id' : forall F a, (forall j n, F j n = n) -> amap F a = a.
+Proof. intros. rewrite <- (amap_id a) at 2. apply amap_ext. intros; apply H. Qed.
+
+Lemma cn_ok : forall a par pv nx, oinr a par -> oinr a pv -> oinr a nx ->
+  connect_neighbors false par pv nx a = (amap (cnF a par pv nx) a, Ok tt).
+Proof.
+  intros a par pv nx Hp Hv Hn. unfold connect_neighbors, cnF, cn_first, cn_last.
+  destruct par as [p|], pv as [v|], nx as [x|]; cbn [oinr ofset] in *;
+    msteps; cbv beta iota zeta; msteps; unfold ret; f_equal;
+    rewrite ?amap_amap; try reflexivity; symmetry; apply amap_id'; reflexivity.
+Qed.
+
+(* cnF only looks at the first/last field of the parent slot *)
+Lemma cnF_amap_keep : forall F a par pv nx,
+  (forall j n, first (F j n) = first n) -> (forall j n, last (F j n) = last n) ->
+  cnF (amap F a) par pv nx = cnF a par pv nx.
+Proof.
+  intros F a par pv nx H1 H2. unfold cnF, cn_first, cn_last.
+  destruct par as [q|]; auto.
+  rewrite (getf_nd_amap_keep F Ffirst a q H1 : first _ = first _).
+  rewrite (getf_nd_amap_keep F Flast a q H2 : last _ = last _). reflexivity.
+Qed.
+
+Lemma fset_keep : forall x f v g j n, fld_eqb f g = false -> getf g (fset x f v j n) = getf g n.
+Proof. intros. rewrite getf_fset, H. now rewrite andb_false_r. Qed.
+
+Ltac fset_keep_tac := intros; unfold fset; destruct (Nat.eqb _ _); reflexivity.
+
+(* ---------- detach_from_siblings ---------- *)
+Definition dfsF (a : arena) (f l : nid) : nodefun :=
+  cnF a (parent (nd a f)) (prev (nd a f)) (next (nd a l))
+  ∘∘ fset l Fnext None ∘∘ fset f Fprev None.
+
+Lemma links_only_dfsF : forall a f l, links_only (dfsF a f l).
+Proof.
+  intros. unfold dfsF. apply links_only_comp; [apply links_only_comp|]; auto using links_only_cnF, links_only_fset.
+Qed.
+
+Lemma dfs_ok : forall a f l, inr a f -> inr a l ->
+  oinr a (parent (nd a f)) -> oinr a (prev (nd a f)) -> oinr a (next (nd a l)) ->
+  detach_from_siblings false f l a = (amap (dfsF a f l) a, Ok tt).
+Proof.
+  intros a f l Hf Hl Hp Hv Hn. unfold detach_from_siblings, dfsF. msteps.
+  assert (E : next (nd (amap (fset f Fprev None) a) l) = next (nd a l)).
+  { apply (getf_nd_amap_keep _ Fnext). fset_keep_tac. }
+  rewrite E.
+  erewrite bind_ok by (apply cn_ok; rewrite ?oinr_amap; assumption).
+  cbn [when_dbg]. unfold ret. f_equal.
+  rewrite !cnF_amap_keep by fset_keep_tac.
+  now rewrite !amap_amap.
+Qed.
+
+(* field values after detach_from_siblings *)
+Lemma getf_dfsF : forall a f l g j n,
+  getf g (dfsF a f l j n) =
+    let par := parent (nd a f) in let pv := prev (nd a f) in let nx := next (nd a l) in
+    if oat par j && fld_eqb Flast g then cn_last a par pv nx
+    else if oat par j && fld_eqb Ffirst g then cn_first a par pv nx
+    else if oat nx j && fld_eqb Fprev g then pv
+    else if oat pv j && fld_eqb Fnext g then nx
+    else if Nat.eqb j (idx l) && fld_eqb Fnext g then None
+    else if Nat.eqb j (idx f) && fld_eqb Fprev g then None
+    else getf g n.
+Proof. intros. unfold dfsF. rewrite !getf_comp, getf_cnF, !getf_fset. reflexivity. Qed.
+
+(* on a node without parent and siblings detach_from_siblings changes no field value *)
+Lemma dfsF_detached : forall a c, inr a c ->
+  parent (nd a c) = None -> prev (nd a c) = None -> next (nd a c) = None ->
+  amap (dfsF a c c) a = a.
+Proof.
+  intros a c I Hp Hv Hn. unfold dfsF. rewrite Hp, Hv, Hn. unfold cnF. cbn [ofset].
+  apply arena_ext; auto. intros j. rewrite nth_amap.
+  destruct (nth_error (nodes a) j) as [n|] eqn:E; cbn; auto. f_equal.
+  unfold comp, idF, fset. destruct (Nat.eqb j (idx c)) eqn:J; auto.
+  apply Nat.eqb_eq in J; subst j. rewrite (at_nd _ _ I) in E. inversion E; subst n.
+  destruct (nd a c); cbn in *; subst; reflexivity.
+Qed.
+
+(* ---------- rewrite_parents ---------- *)
+Fixpoint next_path (a : arena) (o : option nid) (S : list nid) : Prop :=
+  match S with
+  | [] => o = None
+  | x :: r => o = Some x /\ next_path a (next (nd a x)) r
+  end.
+
+Definition reparentF (S : list nid) (np : option nid) : nodefun :=
+  fun j n => if existsb (Nat.eqb j) (map idx S) then setf Fparent np n else n.
+
+Lemma links_only_reparentF : forall S np, links_only (reparentF S np).
+Proof. intros S np j n. unfold reparentF. destruct (existsb _ _); auto using stamp_setf, data_setf. Qed.
+
+Lemma getf_reparentF : forall S np g j n,
+  getf g (reparentF S np j n) = if existsb (Nat.eqb j) (map idx S) && fld_eqb Fparent g then np else getf g n.
+Proof. intros. unfold reparentF. destruct (existsb _ _); cbn [andb]; auto. apply getf_setf. Qed.
+
+Lemma next_path_amap_keep : forall F a S o, (forall j n, next (F j n) = next n) ->
+  next_path (amap F a) o S <-> next_path a o S.
+Proof.
+  intros F a S. induction S as [|x r IH]; intros o H; cbn [next_path]; [tauto|].
+  rewrite (getf_nd_amap_keep F Fnext a x H : next _ = next _). now rewrite IH.
+Qed.
+
+Lemma reparentF_cons : forall x r np a,
+  amap (reparentF r np) (amap (fset x Fparent np) a) = amap (reparentF (x :: r) np) a.
+Proof.
+  intros. rewrite amap_amap. apply amap_ext. intros j n _. unfold comp, reparentF, fset. cbn [map existsb].
+  destruct (Nat.eqb j (idx x)), (existsb (Nat.eqb j) (map idx r)); cbn; auto; destruct n; reflexivity.
+Qed.
+
+Lemma reparentF_nil : forall np a, amap (reparentF [] np) a = a.
+Proof. intros. apply amap_id'. reflexivity. Qed.
+
+Lemma reparentF_single : forall x np a, amap (reparentF [x] np) a = amap (fset x Fparent np) a.
+Proof. intros. rewrite <- reparentF_cons. apply reparentF_nil. Qed.
+
+Lemma rpl_ok : forall S fuel a o np,
+  next_path a o S -> Forall (inr a) S -> length S <= fuel ->
+  (forall s, In s S -> onid_eqb (Some s) np = false) ->
+  rewrite_parents_loop fuel o np a = (amap (reparentF S np) a, Ok COk).
+Proof.
+  induction S as [|x r IH]; intros fuel a o np HP HI HL HN.
+  - cbn in HP; subst o. destruct fuel; cbn; now rewrite reparentF_nil.
+  - destruct HP as [-> HP]. destruct fuel as [|fuel]; [cbn in HL; lia|].
+    cbn [rewrite_parents_loop]. rewrite (HN x) by (now left).
+    inversion HI as [|? ? Ix Ir]; subst. msteps.
+    rewrite next_nd_keep by fset_keep_tac.
+    rewrite IH.
+    + now rewrite reparentF_cons.
+    + apply next_path_amap_keep; auto. fset_keep_tac.
+    + eapply Forall_impl; [|exact Ir]. intros; now apply inr_amap.
+    + cbn in HL; lia.
+    + intros s Hs. apply HN. now right.
+Qed.
+
+(* the error case: the walk stops at the first node equal to the new parent *)
+Lemma rpl_err : forall S1 y S2 fuel a o,
+  next_path a o (S1 ++ y :: S2) -> Forall (inr a) S1 -> length S1 < fuel ->
+  ~ In y S1 ->
+  rewrite_parents_loop fuel o (Some y) a = (amap (reparentF S1 (Some y)) a, Ok (CErr ParentChildLoop)).
+Proof.
+  induction S1 as [|x r IH]; intros y S2 fuel a o HP HI HL HN.
+  - destruct HP as [-> _]. destruct fuel as [|fuel]; [cbn in HL; lia|].
+    cbn [rewrite_parents_loop onid_eqb]. rewrite nid_eqb_refl. now rewrite reparentF_nil.
+  - destruct HP as [-> HP]. destruct fuel as [|fuel]; [cbn in HL; lia|].
+    cbn [rewrite_parents_loop onid_eqb]. rewrite nid_eqb_neq by (intros ->; apply HN; now left).
+    inversion HI as [|? ? Ix Ir]; subst. msteps.
+    rewrite next_nd_keep by fset_keep_tac.
+    rewrite (IH y S2).
+    + now rewrite reparentF_cons.
+    + apply next_path_amap_keep; auto. fset_keep_tac.
+    + eapply Forall_impl; [|exact Ir]. intros; now apply inr_amap.
+    + cbn in HL; lia.
+    + intros Hs. apply HN. now right.
+Qed.
+
+Lemma rewrite_parents_ok : forall S a f np,
+  next_path a (Some f) S -> Forall (inr a) S -> length S <= chain_fuel a ->
+  (forall s, In s S -> onid_eqb (Some s) np = false) ->
+  rewrite_parents f np a = (amap (reparentF S np) a, Ok COk).
+Proof. intros. unfold rewrite_parents, get_arena, bind. now apply rpl_ok. Qed.
+
+Lemma rewrite_parents_self : forall a f, rewrite_parents f (Some f) a = (a, Ok (CErr ParentChildLoop)).
+Proof.
+  intros. unfold rewrite_parents, get_arena, bind, chain_fuel.
+  cbn [rewrite_parents_loop onid_eqb]. now rewrite nid_eqb_refl.
+Qed.
+
+Lemma rewrite_parents_err : forall S1 y S2 a f,
+  next_path a (Some f) (S1 ++ y :: S2) -> Forall (inr a) S1 -> length S1 < chain_fuel a -> ~ In y S1 ->
+  rewrite_parents f (Some y) a = (amap (reparentF S1 (Some y)) a, Ok (CErr ParentChildLoop)).
+Proof. intros. unfold rewrite_parents, get_arena, bind. eapply rpl_err; eauto. Qed.
+
+(* ---------- transplant ---------- *)
+Definition transplantF (a : arena) (S : list nid) (f l : nid) (par pv nx : option nid) : nodefun :=
+  let F1 := cnF a par pv (Some f) ∘∘ reparentF S par in
+  cnF (amap F1 a) par (Some l) nx ∘∘ F1.
+
+Lemma links_only_transplantF : forall a S f l par pv nx, links_only (transplantF a S f l par pv nx).
+Proof.
+  intros. unfold transplantF. apply links_only_comp; [|apply links_only_comp];
+    auto using links_only_cnF, links_only_reparentF.
+Qed.
+
+Lemma reparentF_keep_first : forall S np j n, first (reparentF S np j n) = first n.
+Proof. intros. unfold reparentF. destruct (existsb _ _); reflexivity. Qed.
+Lemma reparentF_keep_last : forall S np j n, last (reparentF S np j n) = last n.
+Proof. intros. unfold reparentF. destruct (existsb _ _); reflexivity. Qed.
+Lemma reparentF_keep_next : forall S np j n, next (reparentF S np j n) = next n.
+Proof. intros. unfold reparentF. destruct (existsb _ _); reflexivity. Qed.
+Lemma reparentF_keep_prev : forall S np j n, prev (reparentF S np j n) = prev n.
+Proof. intros. unfold reparentF. destruct (existsb _ _); reflexivity. Qed.
+
+Lemma next_path_head : forall a f S, next_path a (Some f) S -> exists r, S = f :: r.
+Proof. intros a f [|x r] H; cbn in H; [discriminate|]. destruct H as [E _]. inversion E. eauto. Qed.
+
+Lemma transplant_ok : forall a S f l par pv nx,
+  next_path a (Some f) S -> Forall (inr a) S -> length S <= chain_fuel a ->
+  (forall s, In s S -> onid_eqb (Some s) par = false) ->
+  inr a l -> oinr a par -> oinr a pv -> oinr a nx ->
+  transplant false f l par pv nx a = (amap (transplantF a S f l par pv nx) a, Ok COk).
+Proof.
+  intros a S f l par pv nx HP HI HL HN Il Ip Iv In_.
+  assert (If : inr a f).
+  { destruct (next_path_head _ _ _ HP) as [r ->]. now inversion HI. }
+  unfold transplant, transplantF. msteps.
+  erewrite bind_ok by (eapply rewrite_parents_ok; eauto).
+  cbv beta iota.
+  erewrite bind_ok by (apply cn_ok; rewrite ?oinr_amap; cbn [oinr]; rewrite ?inr_amap; assumption).
+  erewrite bind_ok by (apply cn_ok; rewrite ?oinr_amap; cbn [oinr]; rewrite ?inr_amap; assumption).
+  msteps. unfold ret. f_equal.
+  rewrite (cnF_amap_keep (reparentF S par) a) by (intros; first [apply reparentF_keep_first | apply reparentF_keep_last]).
+  now rewrite !amap_amap.
+Qed.
+
+(* ---------- detach ---------- *)
+Definition detachF (a : arena) (x : nid) : nodefun := fset x Fparent None ∘∘ dfsF a x x.
+
+Lemma links_only_detachF : forall a x, links_only (detachF a x).
+Proof. intros. unfold detachF. apply links_only_comp; auto using links_only_fset, links_only_dfsF. Qed.
+
+(* after detach_from_siblings x x the next link of x is clear, unless x was its own previous sibling *)
+Lemma dfs_next_clear : forall a x, inr a x -> oat (prev (nd a x)) (idx x) = false ->
+  next (nd (amap (dfsF a x x) a) x) = None.
+Proof.
+  intros a x I H. change (getf Fnext (nd (amap (dfsF a x x) a) x) = None).
+  rewrite getf_nd_amap by auto. rewrite getf_dfsF. cbv zeta. cbn [fld_eqb].
+  rewrite !andb_false_r, andb_true_r, H, Nat.eqb_refl. reflexivity.
+Qed.
+
+Lemma detach_ok : forall a x, inr a x ->
+  oinr a (parent (nd a x)) -> oinr a (prev (nd a x)) -> oinr a (next (nd a x)) ->
+  oat (prev (nd a x)) (idx x) = false ->
+  detach false x a = (amap (detachF a x) a, Ok tt).
+Proof.
+  intros a x I Hp Hv Hn Hs. unfold detach, detachF.
+  erewrite bind_ok by (apply dfs_ok; assumption).
+  erewrite bind_ok.
+  2:{ apply (rewrite_parents_ok [x]).
+      - cbn [next_path]. split; auto. now apply dfs_next_clear.
+      - constructor; [now apply inr_amap | constructor].
+      - unfold chain_fuel. cbn. lia.
+      - reflexivity. }
+  msteps. unfold ret. f_equal. rewrite reparentF_single. now rewrite amap_amap.
+Qed.
+
+(* ---------- insert_with_neighbors, insert_last_unchecked ---------- *)
+Definition iwnF (a : arena) (c : nid) (par pv nx : option nid) : nodefun :=
+  transplantF (amap (dfsF a c c) a) [c] c c par pv nx ∘∘ dfsF a c c.
+
+Lemma links_only_iwnF : forall a c par pv nx, links_only (iwnF a c par pv nx).
+Proof. intros. unfold iwnF. apply links_only_comp; auto using links_only_transplantF, links_only_dfsF. Qed.
+
+Lemma iwn_ok : forall a c par pv nx, inr a c ->
+  oinr a (parent (nd a c)) -> oinr a (prev (nd a c)) -> oinr a (next (nd a c)) ->
+  oat (prev (nd a c)) (idx c) = false ->
+  oinr a par -> oinr a pv -> oinr a nx ->
+  onid_eqb pv (Some c) = false -> onid_eqb nx (Some c) = false -> onid_eqb par (Some c) = false ->
+  insert_with_neighbors false c par pv nx a = (amap (iwnF a c par pv nx) a, Ok COk).
+Proof.
+  intros a c par pv nx I Hp Hv Hn Hs Ip Iv In_ E1 E2 E3.
+  unfold insert_with_neighbors, iwnF. msteps. rewrite E1, E2, E3. cbn [orb].
+  erewrite bind_ok by (apply dfs_ok; assumption).
+  erewrite bind_ok.
+  2:{ apply (transplant_ok _ [c]); rewrite ?oinr_amap, ?inr_amap; auto.
+      - cbn [next_path]. split; auto. now apply dfs_next_clear.
+      - constructor; [now apply inr_amap | constructor].
+      - unfold chain_fuel. cbn. lia.
+      - intros s [<-|[]]. now rewrite onid_eqb_sym. }
+  msteps. unfold ret. f_equal. now rewrite amap_amap.
+Qed.
+
+(* inserting a node that has no parent and no siblings: the internal detach_from_siblings is the identity *)
+Lemma iwn_detached_ok : forall a c par pv nx, inr a c ->
+  parent (nd a c) = None -> prev (nd a c) = None -> next (nd a c) = None ->
+  oinr a par -> oinr a pv -> oinr a nx ->
+  onid_eqb pv (Some c) = false -> onid_eqb nx (Some c) = false -> onid_eqb par (Some c) = false ->
+  insert_with_neighbors false c par pv nx a = (amap (transplantF a [c] c c par pv nx) a, Ok COk).
+Proof.
+  intros a c par pv nx I Hp Hv Hn Ip Iv In_ E1 E2 E3.
+  rewrite iwn_ok; auto; try (rewrite ?Hp, ?Hv, ?Hn; exact Logic.I).
+  2:{ rewrite Hv. reflexivity. }
+  f_equal. unfold iwnF. rewrite <- amap_amap. now rewrite !dfsF_detached.
+Qed.
+
+Definition iluF (a : arena) (c p : nid) : nodefun :=
+  transplantF a [c] c c (Some p) (last (nd a p)) None.
+
+Lemma links_only_iluF : forall a c p, links_only (iluF a c p).
+Proof. intros. apply links_only_transplantF. Qed.
+
+Lemma ilu_ok : forall a c p, inr a c -> inr a p -> oinr a (last (nd a p)) ->
+  next (nd a c) = None -> nid_eqb c p = false ->
+  insert_last_unchecked false c p a = (amap (iluF a c p) a, Ok tt).
+Proof.
+  intros a c p Ic Ip Il Hn E. unfold insert_last_unchecked, iluF. msteps.
+  erewrite bind_ok.
+  2:{ apply (transplant_ok _ [c]); auto.
+      - cbn [next_path]. auto.
+      - unfold chain_fuel. cbn. lia.
+      - intros s [<-|[]]. exact E.
+      - exact Logic.I. }
+  msteps. reflexivity.
+Qed.
+
+(* ---------- shape ---------- *)
+Lemma same_shape_amap : forall F a, links_only F -> same_shape a (amap F a).
+Proof.
+  intros F a H. unfold same_shape. rewrite length_amap. repeat split; auto.
+  intros i n E. rewrite nth_amap, E. cbn. exists (F i n). destruct (H i n). auto.
+Qed.
+
+Lemma same_shape_refl : forall a, same_shape a a.
+Proof. intros a. unfold same_shape. repeat split; auto. intros i n E. eauto. Qed.
+
+Lemma same_shape_trans : forall a b c, same_shape a b -> same_shape b c -> same_shape a c.
+Proof.
+  intros a b c (L1 & F1 & G1 & H1) (L2 & F2 & G2 & H2). unfold same_shape.
+  repeat split; try congruence. intros i n E.
+  destruct (H1 i n E) as (n1 & E1 & S1 & D1). destruct (H2 i n1 E1) as (n2 & E2 & S2 & D2).
+  exists n2. repeat split; congruence.
+Qed.
